@@ -265,8 +265,10 @@ class Checker:
                     backtrack = True
             if backtrack:
                 # Backtrack
-                if edge_indices:
-                    edge_index = edge_indices.pop()
+                if not edge_indices:
+                    # Back at the start node: the search is over, whatever its parent field says
+                    break
+                edge_index = edge_indices.pop()
                 if matches:
                     last_tag = matches.pop()
                     if last_tag >= 0:
